@@ -126,6 +126,9 @@ def interpret(obj: Obj, facedim: Sym, axis_of_dim, sizes_unpadded: Optional[Dict
             st.names = {m.get(n, n): p for n, p in st.names.items()}
         elif op == "neg":
             st.neg ^= 1
+        elif op in ("mult", "rmult") and len(e) > 1 and isinstance(e[1], (int, float)) and not isinstance(e[1], bool) and e[1] in (1, -1):
+            if e[1] == -1:  # x * -1: the sign change spelled as a product
+                st.neg ^= 1
         elif op in ("squeeze", "drop_vars", "assign_coords", "expand_dims", "copy", "reset_coords", "reset_index", "transpose"):
             st.other.append(op)
         else:
